@@ -233,7 +233,7 @@ func (x *c02pubs) cachedGlob(v ssa.Value, at *ssa.BasicBlock, depth int, seen ma
 	ok, n := true, 0
 	var fns []*ssa.Function
 	if global {
-		for _, f := range x.c.AllFns {
+		for _, f := range c02fns(x.c) {
 			if at != nil && rootPkg(f) == rootPkg(at.Parent()) {
 				fns = append(fns, f)
 			}
@@ -274,9 +274,38 @@ func (x *c02pubs) cachedGlob(v ssa.Value, at *ssa.BasicBlock, depth int, seen ma
 	return ok && n > 0
 }
 
+// validGlobBeforeEscape: the store fills the Glob of a route that was made in this function and that nobody else can
+// see yet (`r := &Route{...}; r.Glob, err = glob.Compile(p); if err != nil { return err }`): what counts is that the
+// stored value is a successfully compiled pattern wherever the route leaves the function's hands - is stored, passed,
+// returned, merged.
+func (x *c02pubs) validGlobBeforeEscape(st *ssa.Store) bool {
+	fa, ok := st.Addr.(*ssa.FieldAddr)
+	if !ok {
+		return false
+	}
+	a, ok := fa.X.(*ssa.Alloc)
+	if !ok || a.Referrers() == nil {
+		return false
+	}
+	for _, r := range *a.Referrers() {
+		switch y := r.(type) {
+		case *ssa.DebugRef:
+			continue
+		case *ssa.FieldAddr:
+			if y.X == ssa.Value(a) {
+				continue // access to a field of the route
+			}
+		}
+		if r.Block() == nil || !x.validGlob(st.Val, r.Block(), 0, map[ssa.Value]bool{}) {
+			return false
+		}
+	}
+	return true
+}
+
 func runC02P9(c *Ctx, x *c02pubs) {
 	n := 0
-	for _, f := range c.AllFns {
+	for _, f := range c02fns(c) {
 		if rootPkg(f) != c.spkg("route") {
 			continue
 		}
@@ -289,13 +318,13 @@ func runC02P9(c *Ctx, x *c02pubs) {
 				return
 			}
 			n++
-			c.check("C02.P9", fnKey(f)+"|Route.Glob is a successfully compiled pattern", st.Pos(), x.validGlob(st.Val, st.Block(), 0, map[ssa.Value]bool{}),
+			c.check("C02.P9", fnKey(f)+"|Route.Glob is a successfully compiled pattern", st.Pos(), x.validGlob(st.Val, st.Block(), 0, map[ssa.Value]bool{}) || x.validGlobBeforeEscape(st),
 				"the glob matcher calls r.Glob.Match on every route of the looked-up host; a route whose Glob is not the result of a glob.Compile that succeeded (err == nil edge) makes lookups under proxy.matcher=glob dereference nil — a route configuration text then crashes request handling")
 		})
 	}
 	c.atLeast("C02.P9", "stores to Route.Glob", n, 1)
 	// Route literals must set it at all
-	for _, f := range c.AllFns {
+	for _, f := range c02fns(c) {
 		if rootPkg(f) != c.spkg("route") {
 			continue
 		}
